@@ -166,9 +166,11 @@ def record_misc(tier):
     recs = []
     try:
         cases = []
-        for p, q in ((1, 3), (-7, 5), (22, 7), (0, 9), (5, 1), (-3, 8), (1000, 3)):
+        for p, q in ((1, 3), (-7, 5), (22, 7), (0, 9), (5, 1), (-3, 8), (1000, 3), (-1, -3), (-6, -4), (4, -6), (6, -4), (0, -5), (-9, 3)):
             cases.append((f'fp.rational({p}, {q})', Fraction(p, q)))
-        for m, e, b in ((3, 2, 10), (-5, -1, 10), (7, 3, 2), (1, -4, 2), (9, 1, 16), (-11, -2, 4), (0, 5, 10)):
+        for m, e, b in ((3, 2, 10), (-5, -1, 10), (7, 3, 2), (1, -4, 2), (9, 1, 16), (-11, -2, 4), (0, 5, 10),
+                        # negative exponents in bases that are not powers of two: no double holds the result
+                        (1, -1, 10), (-3, -2, 10), (7, -3, 10), (1, -2, 3), (5, -1, 6), (-2, -3, 5), (123, -4, 10)):
             cases.append((f'fp.digits({m}, {e}, {b})', Fraction(m) * Fraction(b) ** e))
         for i, (lit, q) in enumerate(cases):
             name = f'misc{i}'
